@@ -87,8 +87,8 @@ def structure_contract(col, rule, rkw, tname, tf, grid):
         return True, None
     cid = f"structure:{tname}"
     ok = col.check(cid, chk, inputs=inp, sample=inp)
-    if not ok and tname == "HyperbolicRTransform" and "domain (0.0, nan)" in (col.failures[-1]["detail"] or ""):
-        col.failures[-1]["case_id"] = cid + ":known-nan-domain-end"
+    if not ok and tname == "HyperbolicRTransform" and "domain (0.0, nan)" in (col.last_failure["detail"] or ""):
+        col.last_failure["case_id"] = cid + ":known-nan-domain-end"
     if not ok and decreasing:
         # signature of the recorded finding: weights are exactly deriv * w (signed Jacobian) for a decreasing map
         try:
@@ -97,7 +97,7 @@ def structure_contract(col, rule, rkw, tname, tf, grid):
                 signed = np.asarray(tf.deriv(grid.points), dtype=float) * grid.weights
             fin = np.isfinite(signed)
             if np.allclose(new.weights[fin], signed[fin], rtol=1e-13, atol=0) and np.allclose(new.points, tf.transform(grid.points), equal_nan=True):
-                col.failures[-1]["case_id"] = cid + ":known-signed-jacobian"
+                col.last_failure["case_id"] = cid + ":known-signed-jacobian"
         except Exception:  # noqa: BLE001
             pass
 
@@ -138,7 +138,7 @@ def integral_contracts(col, g, tier):
                     new = tf.transform_1d_grid(gl)
                     v1 = new.integrate(np.exp(-new.points))
                 if abs(v1 + 1) < 1e-6:     # exactly the sign-flipped value
-                    col.failures[-1]["case_id"] = cid + ":known-signed-jacobian"
+                    col.last_failure["case_id"] = cid + ":known-signed-jacobian"
 
 
 def domain_mismatch(col):
